@@ -103,14 +103,20 @@ Print Assumptions C18_pointless_meaning.
 
 (* (4) SOUNDNESS of acting on a warning, by simulation on the interpreter model.
    [run_le cfg lib url_rel lint_lines ok c c']: every run of c that finishes (some fuel f; for ok = true also: without the model
-   declining, OOracle) is matched by the run of c' with fuel 2f — same outcome (value / error), and final worlds related by [wrel]:
-   equal globals, heap, log, fetched URLs; only statementCount and the bodies stored for bound script functions may differ.
+   declining, OOracle) is matched by the run of c' with fuel 2f — same outcome (value / error) and same observable final world
+   ([same_world]: globals, heap, log, fetched URLs; not statementCount, not the bodies stored for bound script functions).
    Unlimited statement budget (c_max = 0: deleting a statement changes statementCount); for every library that treats the function
-   table and the counter as opaque ([lib_sim], a premise on [lib]). *)
+   table and the counter as opaque ([lib_ok], a premise on [lib]). *)
+Theorem C18_run_le_means : forall cfg lib url_rel lint_lines ok c c',
+  run_le cfg lib url_rel lint_lines ok c c' <->
+  forall f w o w1, execute_script cfg lib url_rel lint_lines f c w = (o, w1) -> o <> OFuel -> (ok = true -> o <> OOracle) ->
+  exists w1', execute_script cfg lib url_rel lint_lines (2 * f) c' w = (o, w1') /\ same_world w1 w1'.
+Proof. exact final_run_le_means. Qed.
+Print Assumptions C18_run_le_means.
 
 (* unused label: deleting the statement lint points at changes no run, in BOTH directions *)
 Theorem C18_unused_label_delete : forall cfg lib url_rel lint_lines,
-  c_max cfg = 0%Z -> lib_sim false lib ->
+  c_max cfg = 0%Z -> lib_ok lib false ->
   forall s l i, In (WUnusedLabel l i) (lint s) ->
   nth_error s i = Some (SLabel l) /\
   run_le cfg lib url_rel lint_lines false s (remove_at i s) /\ run_le cfg lib url_rel lint_lines false (remove_at i s) s.
@@ -118,7 +124,7 @@ Proof. exact final_unused_label_delete. Qed.
 Print Assumptions C18_unused_label_delete.
 
 Theorem C18_unused_fn_label_delete : forall cfg lib url_rel lint_lines,
-  c_max cfg = 0%Z -> lib_sim false lib ->
+  c_max cfg = 0%Z -> lib_ok lib false ->
   forall s l fn i, In (WFnUnusedLabel l fn i) (lint s) ->
   exists k args a b body, nth_error s k = Some (SFunction fn args a b body) /\ nth_error body i = Some (SLabel l) /\
     run_le cfg lib url_rel lint_lines false s (set_body s k (remove_at i body)) /\
@@ -126,18 +132,34 @@ Theorem C18_unused_fn_label_delete : forall cfg lib url_rel lint_lines,
 Proof. exact final_unused_fn_label_delete. Qed.
 Print Assumptions C18_unused_fn_label_delete.
 
-(* the definition, spelled out *)
-Theorem C18_run_le_means : forall cfg lib url_rel lint_lines ok c c',
-  run_le cfg lib url_rel lint_lines ok c c' <->
-  forall f w o w1, execute_script cfg lib url_rel lint_lines f c w = (o, w1) -> o <> OFuel -> (ok = true -> o <> OOracle) ->
-  exists w1', execute_script cfg lib url_rel lint_lines (2 * f) c' w = (o, w1') /\ wrel ok w1 w1'.
-Proof. exact final_run_le_means. Qed.
-Print Assumptions C18_run_le_means.
+(* unused variable: the name is read by no expression of the body ([unread]); renaming ALL its assignments to a name x' that no
+   expression of the body mentions either changes no run, in both directions *)
+Theorem C18_unused_var_rename : forall cfg lib url_rel lint_lines,
+  c_max cfg = 0%Z -> lib_ok lib false ->
+  forall s x f i x', In (WUnusedVar x f i) (lint s) ->
+  exists k args a b body, nth_error s k = Some (SFunction f args a b body) /\
+    (unread x' body = true ->
+     let s' := set_stmt s k (SFunction f args a b (rename_body x x' body)) in
+     run_le cfg lib url_rel lint_lines false s s' /\ run_le cfg lib url_rel lint_lines false s' s).
+Proof. exact final_unused_var_rename. Qed.
+Print Assumptions C18_unused_var_rename.
 
-(* the general statement behind them: statement lists that differ only by labels no jump targets (also inside function bodies;
-   for ok = true also by pointless statements present on the left only) behave alike *)
+(* unused argument: renaming the parameter (every occurrence in the parameter list) likewise *)
+Theorem C18_unused_arg_rename : forall cfg lib url_rel lint_lines,
+  c_max cfg = 0%Z -> lib_ok lib false ->
+  forall s x f k x', In (WUnusedArg x f k) (lint s) ->
+  exists args a b body, nth_error s k = Some (SFunction f (Some args) a b body) /\ In x args /\
+    (unread x' body = true ->
+     let s' := set_stmt s k (SFunction f (Some (rename_args x x' args)) a b body) in
+     run_le cfg lib url_rel lint_lines false s s' /\ run_le cfg lib url_rel lint_lines false s' s).
+Proof. exact final_unused_arg_rename. Qed.
+Print Assumptions C18_unused_arg_rename.
+
+(* the general statement behind them: statement lists that differ only by labels no jump targets (also inside function bodies),
+   by functions renamed on two names [xo], [xn] that no expression of their body mentions, and — for ok = true — by pointless
+   statements present on the left only, behave alike *)
 Theorem C18_related_scripts_run_alike : forall cfg lib url_rel lint_lines,
-  c_max cfg = 0%Z -> forall ok, lib_sim ok lib -> forall c c', code_rel ok c c' -> run_le cfg lib url_rel lint_lines ok c c'.
+  c_max cfg = 0%Z -> forall ok xo xn, lib_sim ok xo xn lib -> forall c c', code_rel ok xo xn c c' -> run_le cfg lib url_rel lint_lines ok c c'.
 Proof. exact final_related_scripts. Qed.
 Print Assumptions C18_related_scripts_run_alike.
 
@@ -152,14 +174,14 @@ Print Assumptions C18_pointless_expression_has_no_effect.
    the label theorem): only original => edited, and a run in which the model declines (OOracle: operand types whose text/arithmetic
    Model/Interp.v does not reproduce) is not covered; the converse needs fuel for the deleted expression itself. *)
 Theorem C18_pointless_delete_partial : forall cfg lib url_rel lint_lines,
-  c_max cfg = 0%Z -> lib_sim true lib ->
+  c_max cfg = 0%Z -> lib_ok lib true ->
   forall s i, In (WPointless i) (lint s) ->
   exists e, nth_error s i = Some (SExpr None e) /\ pointless e = true /\ run_le cfg lib url_rel lint_lines true s (remove_at i s).
 Proof. exact final_pointless_delete_partial. Qed.
 Print Assumptions C18_pointless_delete_partial.
 
 Theorem C18_pointless_fn_delete_partial : forall cfg lib url_rel lint_lines,
-  c_max cfg = 0%Z -> lib_sim true lib ->
+  c_max cfg = 0%Z -> lib_ok lib true ->
   forall s fn i, In (WFnPointless fn i) (lint s) ->
   exists k args a b body e, nth_error s k = Some (SFunction fn args a b body) /\ nth_error body i = Some (SExpr None e) /\
     pointless e = true /\ run_le cfg lib url_rel lint_lines true s (set_body s k (remove_at i body)).
@@ -167,13 +189,9 @@ Proof. exact final_pointless_fn_delete_partial. Qed.
 Print Assumptions C18_pointless_fn_delete_partial.
 
 (* the premise on the library is satisfiable, also by a library that calls back into script functions *)
-Theorem C18_lib_premise_satisfiable : forall ok, lib_sim ok toy_lib.
-Proof. exact toy_lib_sim. Qed.
+Theorem C18_lib_premise_satisfiable : forall ok, lib_ok toy_lib ok.
+Proof. exact final_lib_premise_satisfiable. Qed.
 Print Assumptions C18_lib_premise_satisfiable.
-
-(* NOT PROVED in the model (direct oracle on the implementation only, harness/c18.py):
-   C18_unused_var_rename, C18_unused_arg_rename :
-     forall s f x x', In (WUnusedVar x f i) (lint s) -> fresh x' s -> run (rename_local f x x' s) ~ run s. *)
 
 (* known finding F26: the nested scope is not visited *)
 Example C18_nested_scope_refuted :
